@@ -221,9 +221,19 @@ def make_program(rng):
     return "\n".join(lines) + "\n", flat, cq, cb
 
 
-def run(ctx):
-    from opensquirrel.circuit import Circuit
+BAD_FIRST = ["version 3.0\nqubit[4] q\nH q[3]\nCNOT q[1], q[1]\n", "version 3.0\nqubit[2] q\nX q[0]\nFoo q[1]\n",
+             "version 3.0\nqubit[3] q\nbit[1] b\nY q[2]\nb[0] = measure q[1]\nCZ q[0], q[0]\n", "version 3.0\nqubit[2] q\nH q[5]\n"]
 
+
+def feed(parser, text):
+    """hand a program to a long-lived Parser object, whatever it makes of it"""
+    try:
+        parser.circuit_from_string(text)
+    except Exception:  # noqa: BLE001
+        pass
+
+
+def run(ctx):
     rng = ctx.rng
     ctx.rule("programs rendered from a random flat instruction list choosing per operand among whole variable, range a:b, "
              "index list, single index; parameters as literals and constant expressions (-pi/3, 2*pi); 1..3 qubit and 0..3 bit "
@@ -243,106 +253,146 @@ def run(ctx):
             idx.append(i)
     mres = dict(zip(idx, model.call_many(reqs)))
     ctx.suite("programs", cases=len(progs))
+    prev = None
     for i, (text, flat, nq, nb) in enumerate(progs):
-        case = {"text": text}
-        ctx.seen(case, len(flat) > 0)
-        ctx.bump(f"instructions_{min(len(flat), 12)}")
-        try:
-            c = Circuit.from_string(text)
-            err = None
-        except Exception as e:  # noqa: BLE001
-            c, err = None, implrun.errkind(e)
         # the same program through ONE Parser object reused for the whole run must give the same circuit; now and then
         # the reused parser is first fed a program that is refused (by libqasm, or by OpenSquirrel after some statements)
-        if rng.random() < 0.15:
-            bad = rng.choice(["version 3.0\nqubit[4] q\nH q[3]\nCNOT q[1], q[1]\n", "version 3.0\nqubit[2] q\nX q[0]\nFoo q[1]\n",
-                              "version 3.0\nqubit[3] q\nbit[1] b\nY q[2]\nb[0] = measure q[1]\nCZ q[0], q[0]\n", "version 3.0\nqubit[2] q\nH q[5]\n"])
-            try:
-                reused.circuit_from_string(bad)
-            except Exception:  # noqa: BLE001
-                pass
-        try:
-            c_re = reused.circuit_from_string(text)
-            same = err is None and (c_re.qubit_register_size, c_re.bit_register_size) == (c.qubit_register_size, c.bit_register_size) \
-                and not ser.struct_diff(implrun.canon_post(c_re.ir.statements), implrun.canon_post(c.ir.statements), 0)
-        except Exception as e:  # noqa: BLE001
-            same = err is not None
-        if not same:
-            ctx.oracle_fail("programs", case, "a Parser object that already parsed other programs gives a different circuit", None)
-            continue
-        eq = None
-        if asts[i] is None:
-            ctx.oracle_fail("programs", case, f"generator bug or parser defect: libqasm rejected a supported program ({err})", None)
-            continue
-        margin, r = mres[i]
-        mv = ser.canon(r)
-        if err is not None:
-            eq = mv[0] == "err"
-            if not eq:
-                ctx.disagree("programs", case, f"impl raised {err}, model parsed")
-            ctx.oracle_fail("programs", case, f"supported program raised {err}", eq)
-            continue
-        post = implrun.canon_post(c.ir.statements)
-        if mv[0] != "ok":
-            ctx.disagree("programs", case, f"model error {mv}")
-            eq = False
-        else:
-            mnq, mnb, mir = mv[1]
-            d = None
-            if (mnq, mnb) != (c.qubit_register_size, c.bit_register_size):
-                d = f"register sizes impl {(c.qubit_register_size, c.bit_register_size)} model {(mnq, mnb)}"
-            else:
-                d = ser.struct_diff(post, implrun.renumber(mir), 1e-12)
-            if d:
-                ctx.disagree("programs", case, d, margin)
-            eq = d is None
-        # oracle: the flat list the text was rendered from
-        if (c.qubit_register_size, c.bit_register_size) != (nq, nb):
-            ctx.oracle_fail("programs", case, f"register sizes {(c.qubit_register_size, c.bit_register_size)}, declared {(nq, nb)}", eq)
-            continue
-        ref = gen.build_circuit(nq, nb, flat)
-        want = implrun.canon_post(ref.ir.statements)
-        dd = ser.struct_diff(post, want, 1e-12)
-        if dd:
-            ctx.oracle_fail("programs", case, "circuit is not the element-wise expansion in source order: " + dd, eq)
+        check_program(ctx, {"text": text, "flat": flat, "nq": nq, "nb": nb, "reused_prev": prev}, asts[i], mres.get(i),
+                      reused, lambda: rng.choice(BAD_FIRST) if rng.random() < 0.15 else None)
+        prev = text
     ctx.sample({"text": progs[0][0], "flat": progs[0][1]})
     # malformed corpus
     for text in MALFORMED:
-        case = {"text": text, "malformed": True}
-        ctx.seen(case)
-        try:
-            Circuit.from_string(text)
-            ctx.oracle_fail("malformed", case, "a program the language rejects produced a circuit", None)
-        except Exception:  # noqa: BLE001
-            pass
+        check_malformed(ctx, {"text": text, "malformed": True})
     ctx.suite("malformed", cases=len(MALFORMED))
     # shadowed redeclarations (accepted by libqasm 0.6.7)
     for text, nq, nb, flat in REDECLARED:
-        case = {"text": text, "redeclared": True}
-        ctx.seen(case)
-        try:
-            c = Circuit.from_string(text)
-        except Exception as e:  # noqa: BLE001
-            continue        # refusing would be fine
-        want = implrun.canon_post(gen.build_circuit(nq, nb, flat).ir.statements)
-        got = implrun.canon_post(c.ir.statements)
-        dd = ser.struct_diff(got, want, 1e-12)
-        if dd or (c.qubit_register_size, c.bit_register_size) != (nq, nb):
-            d = dump_ast(text)
-            (_, r), = model.call_many([["parse_program", d[0], d[1]]])
-            mv = ser.canon(r)
-            eqm = mv[0] == "ok" and not ser.struct_diff(got, implrun.renumber(mv[1][2]), 1e-12)
-            ctx.oracle_fail("redeclared", case, f"a reference made before the redeclaration is given the offsets of the later variable: {dd}", eqm)
+        check_redeclared(ctx, {"text": text, "redeclared": True}, nq, nb, flat)
     ctx.suite("redeclared", cases=len(REDECLARED))
 
 
-def replay(ctx, payload):
+def check_program(ctx, prog, ast, mr, reused, refused_first):
+    """prog: the program with the flat list it was rendered from and the history of the reused parser (the program it
+    read before; refused_first() says which refused program, if any, it is fed first)"""
     from opensquirrel.circuit import Circuit
 
-    case = payload.get("case") or (payload.get("first_disagreement") or {}).get("case")
+    text, flat, nq, nb = prog["text"], prog["flat"], prog["nq"], prog["nb"]
+    case = {"text": text}
+    ctx.seen(case, len(flat) > 0)
+    ctx.bump(f"instructions_{min(len(flat), 12)}")
     try:
-        c = Circuit.from_string(case["text"])
-        res = implrun.canon_post(c.ir.statements)
+        c = Circuit.from_string(text)
+        err = None
     except Exception as e:  # noqa: BLE001
-        res = f"raised {type(e).__name__}: {e}"
-    return {"impl": res, "fails": payload.get("kind") == "oracle"}
+        c, err = None, implrun.errkind(e)
+    bad = refused_first()
+    if bad is not None:
+        feed(reused, bad)
+    case = {**prog, "refused_first": bad}        # as recorded: everything a replay needs
+    try:
+        c_re = reused.circuit_from_string(text)
+        same = err is None and (c_re.qubit_register_size, c_re.bit_register_size) == (c.qubit_register_size, c.bit_register_size) \
+            and not ser.struct_diff(implrun.canon_post(c_re.ir.statements), implrun.canon_post(c.ir.statements), 0)
+    except Exception as e:  # noqa: BLE001
+        same = err is not None
+    if not same:
+        ctx.oracle_fail("programs", case, "a Parser object that already parsed other programs gives a different circuit", None)
+        return
+    eq = None
+    if ast is None:
+        ctx.oracle_fail("programs", case, f"generator bug or parser defect: libqasm rejected a supported program ({err})", None)
+        return
+    margin, r = mr
+    mv = ser.canon(r)
+    if err is not None:
+        eq = mv[0] == "err"
+        if not eq:
+            ctx.disagree("programs", case, f"impl raised {err}, model parsed")
+        ctx.oracle_fail("programs", case, f"supported program raised {err}", eq)
+        return
+    post = implrun.canon_post(c.ir.statements)
+    if mv[0] != "ok":
+        ctx.disagree("programs", case, f"model error {mv}")
+        eq = False
+    else:
+        mnq, mnb, mir = mv[1]
+        d = None
+        if (mnq, mnb) != (c.qubit_register_size, c.bit_register_size):
+            d = f"register sizes impl {(c.qubit_register_size, c.bit_register_size)} model {(mnq, mnb)}"
+        else:
+            d = ser.struct_diff(post, implrun.renumber(mir), 1e-12)
+        if d:
+            ctx.disagree("programs", case, d, margin)
+        eq = d is None
+    # oracle: the flat list the text was rendered from
+    if (c.qubit_register_size, c.bit_register_size) != (nq, nb):
+        ctx.oracle_fail("programs", case, f"register sizes {(c.qubit_register_size, c.bit_register_size)}, declared {(nq, nb)}", eq)
+        return
+    ref = gen.build_circuit(nq, nb, flat)
+    want = implrun.canon_post(ref.ir.statements)
+    dd = ser.struct_diff(post, want, 1e-12)
+    if dd:
+        ctx.oracle_fail("programs", case, "circuit is not the element-wise expansion in source order: " + dd, eq)
+
+
+def check_malformed(ctx, case):
+    from opensquirrel.circuit import Circuit
+
+    ctx.seen(case)
+    try:
+        Circuit.from_string(case["text"])
+        ctx.oracle_fail("malformed", case, "a program the language rejects produced a circuit", None)
+    except Exception:  # noqa: BLE001
+        pass
+
+
+def check_redeclared(ctx, case, nq, nb, flat):
+    from opensquirrel.circuit import Circuit
+
+    text = case["text"]
+    ctx.seen(case)
+    try:
+        c = Circuit.from_string(text)
+    except Exception as e:  # noqa: BLE001
+        return        # refusing would be fine
+    want = implrun.canon_post(gen.build_circuit(nq, nb, flat).ir.statements)
+    got = implrun.canon_post(c.ir.statements)
+    dd = ser.struct_diff(got, want, 1e-12)
+    if dd or (c.qubit_register_size, c.bit_register_size) != (nq, nb):
+        d = dump_ast(text)
+        (_, r), = model.call_many([["parse_program", d[0], d[1]]])
+        mv = ser.canon(r)
+        eqm = mv[0] == "ok" and not ser.struct_diff(got, implrun.renumber(mv[1][2]), 1e-12)
+        ctx.oracle_fail("redeclared", case, f"a reference made before the redeclaration is given the offsets of the later variable: {dd}", eqm)
+
+
+def replay_program(ctx, case):
+    """a program of the random suite again, with a new long-lived Parser that is given the recorded history first"""
+    from opensquirrel.parser.libqasm.parser import Parser
+
+    reused = Parser()
+    if case.get("reused_prev"):
+        feed(reused, case["reused_prev"])
+    ast = dump_ast(case["text"])
+    mr = model.call_many([["parse_program", ast[0], ast[1]]])[0] if ast is not None else None
+    prog = {k: case.get(k) for k in ("text", "flat", "nq", "nb", "reused_prev")}
+    check_program(ctx, prog, ast, mr, reused, lambda: case.get("refused_first"))
+
+
+def replay(ctx, payload):
+    from harness import framework
+
+    suite, case = framework.replay_target(payload)
+    if case is None:
+        return framework.replay_nothing(payload)
+    if case.get("malformed"):
+        check_malformed(ctx, case)
+    elif case.get("redeclared"):
+        for text, nq, nb, flat in REDECLARED:
+            if text == case["text"]:
+                check_redeclared(ctx, case, nq, nb, flat)
+    elif "flat" in case:
+        replay_program(ctx, case)
+    else:
+        return framework.replay_nothing(payload, "record without the instruction list the program was rendered from")
+    return framework.replay_result(ctx)
